@@ -28,6 +28,11 @@ BestUnbeaten == \A j \in 1..Len(cands) : ~Better(cands[j], cands[Best(cands)])
 \* a candidate all of whose pieces parsed is never passed over for one with an unparsed piece
 FullyParsedWins == \A i, j \in 1..Len(cands) :
                      (NotParsed(cands[i]) = 0 /\ NotParsed(cands[j]) > 0) => Best(cands) # j
+\* the base of a relative piece is an absolute one, and no absolute piece lies between it and the relative piece
+RelFlags == UNION {[1..k -> BOOLEAN] : k \in 0..6}
+RelativeBaseLaw == \A rel \in RelFlags : LET b == RelativeBaseIndex(rel) IN
+                     /\ (b # 0 => ~rel[b] /\ \A j \in (b + 1)..Len(rel) : rel[j])
+                     /\ (b = 0 => \A j \in 1..Len(rel) : rel[j])
 \* (a peculiarity, stated so that a change to it is noticed: a candidate without any piece to parse has the best key)
 EmptyCandidateWins == (\E i \in 1..Len(cands) : Len(cands[i]) = 0) => Len(cands[Best(cands)]) = 0
 =============================================================================
